@@ -218,6 +218,18 @@ def shard(task):
       n += 1
       continue
 
+    # what a caller may do with a configuration it was handed (e.g. to derive a follow-up study): edit it in place. The study,
+    # and every later read of its trials, must not notice.
+    try:
+      for handed in (client.get_study_config(), clients.Study(client).materialize_study_config(), clients.Study(client).materialize_problem_statement()):
+        sp_ = handed.search_space
+        first = list(sp_.parameters)[0].name
+        sp_.pop(first)
+        sp_.root.add_categorical_param(first, ['scribbled-a', 'scribbled-b'])
+        sp_.root.add_float_param('scribbled_parameter', 0.0, 1.0)
+    except Exception:  # pylint: disable=broad-except
+      pass
+
     def store(assign):
       t = study_pb2.Trial()
       for k, v in assign.items():
